@@ -31,9 +31,35 @@ def Scope.level : Scope → Nat
 inductive ExcKind | exc | abortTest | abortSuite | abortAll | interrupted
 deriving DecidableEq, Repr, Inhabited
 
+/-- The CLASS of an exception object raised by user code: a plain exception, one of the three `Abort*`
+    classes of `lemoncheesecake.exceptions`, or a project-defined SUBCLASS of one of them
+    (`class EnvironmentDown(lcc.AbortAllTests)`).  `RunContext.handle_exception` and `lcc.Thread.run`
+    classify with `isinstance`, so a subclass instance behaves exactly like an instance of its base class:
+    `ExcClass.kind` is that classification (tied to the code by the extracted table `handleExcTable`,
+    `Generated/C08TablesCheck.lean`). -/
+inductive ExcClass | exc | abortTest | abortSuite | abortAll | subAbortTest | subAbortSuite | subAbortAll
+deriving DecidableEq, Repr, Inhabited
+
+def ExcClass.kind : ExcClass → ExcKind
+  | .exc => .exc
+  | .abortTest | .subAbortTest => .abortTest
+  | .abortSuite | .subAbortSuite => .abortSuite
+  | .abortAll | .subAbortAll => .abortAll
+
+/-- class name as the harness writes it (`kind`, and `sub` = "an instance of a project-defined subclass of it") -/
+def ExcClass.ofName (k : String) (sub : Bool) : Option ExcClass :=
+  match k, sub with
+  | "exc", false => some .exc
+  | "AbortTest", false => some .abortTest | "AbortSuite", false => some .abortSuite | "AbortAllTests", false => some .abortAll
+  | "AbortTest", true => some .subAbortTest | "AbortSuite", true => some .subAbortSuite | "AbortAllTests", true => some .subAbortAll
+  | _, _ => none
+
 inductive Act
   | log (level : LogLevel) | check (ok : Bool) | step (d : String) | url | attach
   | raise (k : ExcKind) | gate | thread (script : List Act)
+  /-- `with lcc.prepare_attachment(..) as path:` around further acts of the same thread (a nested block, a
+      `save_attachment_*`, a step change, logs, an `lcc.Thread` started and joined inside, a raise) -/
+  | attachBlock (script : List Act)
 deriving Repr, Inhabited
 
 abbrev Script := List Act
@@ -225,6 +251,7 @@ inductive UnitId
   | hook (suite : Path) (hook : String) (test : Option Path)
   | body (test : Path)
   | th (parent : UnitId) (i : Nat)
+  | blk (parent : UnitId) (i : Nat)       -- the body of the `with prepare_attachment` block that is act `i` of `parent`
 deriving DecidableEq, Repr, Inhabited
 
 inductive Item
@@ -335,7 +362,17 @@ def execActs (fuel : Nat) (role : Nat) (u : UnitId) (i : Nat) : List Act → M (
             -- `Thread.run`: `except Exception: self._session.log_error(...)` (the session method: no interrupt check)
             sop c (.log .error "")
           sop c .threadEnd
-          pure none)
+          pure none
+        | .attachBlock inner => do
+          -- `lcc.prepare_attachment(..)` is a public-API call (`_interruptible`); entering the block takes the
+          -- name under the lock and RELEASES the lock before the body runs; leaving it normally flushes and fires
+          -- the attachment event (session method: no interrupt check); an exception leaves it without any event
+          match ← apiAct role (.attachBegin "" "" false) with
+          | some k => pure (some k)
+          | none =>
+            match ← execScript fuel role (.blk u i) inner with
+            | some k => do sop role .attachAbort; pure (some k)
+            | none => do sop role .attachEnd; pure none)
       match r with
       | some k =>
         emitUser role u (match k with
